@@ -484,12 +484,54 @@ func C14() *sim.Check {
 		return nil
 	}
 
+	// streams with more segments than any counter of "reasonable" width holds:
+	// 70 000 - 140 000 segments of 0-2 bytes (the format has no limit)
+	many := &sim.Batch{Name: "many-segments", Quick: 4, Thorough: 24}
+	many.Run = func(c *sim.RunCtx) *sim.Outcome {
+		t := c.T
+		nseg := 66_000 + t.Choose(75_000)
+		var data, want []byte
+		for i := 0; i < nseg; i++ {
+			typ := byte(1 + t.Choose(2))
+			l := t.Choose(3)
+			if i%7 != 0 {
+				l = 0 // mostly empty segments (cheap, and legal)
+			}
+			data = append(data, 0x80, typ, byte(l), 0, 0, 0)
+			for j := 0; j < l; j++ {
+				b := byte('a' + (i+j)%26)
+				data = append(data, b)
+				if typ == 1 {
+					want = append(want, b)
+				} else {
+					want = append(want, "0123456789abcdef"[b>>4], "0123456789abcdef"[b&15])
+				}
+			}
+		}
+		if t.Bool(2, 3) {
+			data = append(data, 0x80, 3)
+		}
+		m := pfbModel{out: want, wantEOF: true}
+		sch := sim.Schedule{Mode: sim.ChunkFixed, K: []int{6, 7, 4096, 65536}[t.Choose(4)]}
+		bs := []int{1, 3, 512, 8192}[t.Choose(4)]
+		out, _, _ := runPFB(data, m, sch, nil, func() int { return bs }, c.St, false)
+		c.St.Inc("streams_with_more_than_65536_segments")
+		c.St.Case(sim.Mix(uint64(nseg), "many", uint64(bs)))
+		if out != nil {
+			out.Detail = fmt.Sprintf("stream of %d segments: %s", nseg, out.Detail)
+			if c.Explain {
+				out.Human = map[string]any{"segments": nseg, "schedule": sch.String(), "caller_buffer": bs}
+			}
+		}
+		return out
+	}
+
 	return &sim.Check{
 		Prop: "C14", Harness: "h_pfb", Level: "exploration",
-		Rule:        "streams: a segment list (types 1/2, lengths 0..300, optional end marker, trailing garbage, or one anomaly: short binary/text segment, bad header, partial header) is drawn from the tape together with an underlying delivery schedule and a caller buffer-size sequence; every Read of pfb.Decode is checked against a 30-line reference model. A case is non-trivial when the stream has a non-empty binary segment and at least one odd caller buffer size was used; distinct = distinct (stream bytes, schedule, buffer sequence) hash. headers: all 65536 first-two-byte values x {one read, 1-byte reads}, each counted once. Bad headers are drawn from real file starts (PFA, PDF, OpenType, TrueType, WOFF, AFM, gzip, a PFB shifted by one byte) one time in four; one stream in six is finished with io.Copy after 0-5 Reads; duet: a second decoder is advanced from inside the first one's source reads; successor decoders: after a decoder has returned io.EOF a new one is made for another stream, the finished one is read again (must stay finished) and the new one must deliver its own stream; huge-segments: 2 GiB / 4 GiB-1 segments from a virtual source, read with a 3 MiB buffer.",
+		Rule:        "streams: a segment list (types 1/2, lengths 0..300, optional end marker, trailing garbage, or one anomaly: short binary/text segment, bad header, partial header) is drawn from the tape together with an underlying delivery schedule and a caller buffer-size sequence; every Read of pfb.Decode is checked against a 30-line reference model. A case is non-trivial when the stream has a non-empty binary segment and at least one odd caller buffer size was used; distinct = distinct (stream bytes, schedule, buffer sequence) hash. headers: all 65536 first-two-byte values x {one read, 1-byte reads}, each counted once. Bad headers are drawn from real file starts (PFA, PDF, OpenType, TrueType, WOFF, AFM, gzip, a PFB shifted by one byte) one time in four; one stream in six is finished with io.Copy after 0-5 Reads; duet: a second decoder is advanced from inside the first one's source reads; successor decoders: after a decoder has returned io.EOF a new one is made for another stream, the finished one is read again (must stay finished) and the new one must deliver its own stream; huge-segments: 2 GiB / 4 GiB-1 segments from a virtual source, read with a 3 MiB buffer; many-segments: streams of 66 000 - 141 000 segments. A bad header may also be a stray byte (line end, NUL, blank, doubled marker) in front of an otherwise good later segment.",
 		Assume:      []string{"the reference model in harness/h_pfb.go is the specification of PFB framing", "underlying readers never return (0, nil) for a non-empty buffer"},
 		RealStub:    map[string]any{"real": []string{"pfb.Decode (unmodified /repo code)", "io.ReadFull"}, "stub": []string{"underlying reader (SimReader)", "caller (buffer-size sequence)"}},
-		Batches:     []*sim.Batch{headers, huge, duet, random},
+		Batches:     []*sim.Batch{headers, huge, many, duet, random},
 		SimTimeUnit: "Read calls: caller -> decoder and decoder -> simulated source", SimTimeCounters: []string{"src_reads", "decoder_reads"},
 		Probes: []string{"probe_zero_length_segment", "probe_marker_followed_by_garbage", "probe_binary_with_odd_buffer", "anomaly_1", "anomaly_2", "anomaly_3", "anomaly_4"},
 	}
